@@ -26,14 +26,14 @@ type Config struct {
 	Frag         string       `json:"frag,omitempty"`     // default request fragmentation profile
 	MtimeRes     string       `json:"mtimeRes,omitempty"` // ns | us | s | 2s (simfs)
 	ClockStepMs  int          `json:"clockStepMs,omitempty"`
-	Faulty       bool         `json:"faulty,omitempty"`   // failing faults may be attached to ops
-	CrashAll     bool         `json:"crashAll,omitempty"` // take a crash snapshot at every I/O boundary (C15)
+	Faulty       bool         `json:"faulty,omitempty"`    // failing faults may be attached to ops
+	CrashAll     bool         `json:"crashAll,omitempty"`  // take a crash snapshot at every I/O boundary (C15)
 	CrashFrom    int          `json:"crashFrom,omitempty"` // crash snapshots only for operations with at least this index
 	BoltMmap     bool         `json:"boltMmap,omitempty"`  // open the bolt file with a large initial mmap (no remap on growth)
-	Buckets      []string     `json:"buckets,omitempty"`  // buckets created by setup
+	Buckets      []string     `json:"buckets,omitempty"`   // buckets created by setup
 	Versioned    bool         `json:"versioned,omitempty"`
-	Mode         string       `json:"mode,omitempty"` // seq (model-checked) | lin (C07) | raw (C09)
-	LateEOF      bool         `json:"lateEOF,omitempty"` // request bodies report EOF in a separate read (HTTP/2, buffering middleware)
+	Mode         string       `json:"mode,omitempty"`       // seq (model-checked) | lin (C07) | raw (C09)
+	LateEOF      bool         `json:"lateEOF,omitempty"`    // request bodies report EOF in a separate read (HTTP/2, buffering middleware)
 	LinUploads   [][2]string  `json:"linUploads,omitempty"` // (bucket, key) of multipart uploads initiated by setup (C07)
 }
 
@@ -46,7 +46,7 @@ type BodySpec struct {
 
 // Fault is a fault attached to the op it hits.
 type Fault struct {
-	Kind string `json:"kind"`        // abort | aborteof | stall | frag | respfail | slowreader | eio | enospc | shortread | clock | eofdata | dup
+	Kind string `json:"kind"`         // abort | aborteof | stall | frag | respfail | slowreader | eio | enospc | shortread | clock | eofdata | dup
 	At   int    `json:"at,omitempty"` // byte offset / fs call index / amount
 	N    int    `json:"n,omitempty"`
 	S    string `json:"s,omitempty"`
@@ -92,7 +92,7 @@ type Op struct {
 	Marker string            `json:"marker,omitempty"`
 	HasMk  bool              `json:"hasMk,omitempty"`
 	Sticky bool              `json:"sticky,omitempty"` // V2 walks: keep sending start-after together with the continuation token (as the AWS SDK paginator does)
-	Up     int               `json:"up,omitempty"` // upload ref (0-based index into uploads initiated in this run, wraps); -1 unknown
+	Up     int               `json:"up,omitempty"`     // upload ref (0-based index into uploads initiated in this run, wraps); -1 unknown
 	Part   int               `json:"part,omitempty"`
 	Parts  []PartRef         `json:"parts,omitempty"`
 	API    bool              `json:"api,omitempty"` // through the Go Backend API instead of HTTP
@@ -108,7 +108,7 @@ type RawReq struct {
 	Target  string      `json:"t"`
 	Host    string      `json:"h,omitempty"`
 	Headers [][2]string `json:"hd,omitempty"`
-	Body    string      `json:"body,omitempty"`   // literal body
+	Body    string      `json:"body,omitempty"`    // literal body
 	BodyGen *BodySpec   `json:"bodyGen,omitempty"` // or generated bytes
 	Class   string      `json:"class,omitempty"`   // (route, parameter-class) label for coverage
 }
